@@ -1,6 +1,1232 @@
-//! C07 — stub (monitor not built yet).
-use crate::core::Ctx;
+//! C07 — RTR PDUs survive the wire unchanged; broken streams end in errors,
+//! not hangs.
+//!
+//! Workload: model values (`c07_gen`) are built with the library's public
+//! constructors, written with the library's `write`, and read back through
+//! every read entry point. Then every truncation length of the written
+//! stream (one, two and three PDUs) and every value of the header's type and
+//! version octet plus a boundary set of length values is fed through a
+//! `TruncatingReader` in three delivery patterns.
+//!
+//! Oracle: identity (value, octets, accessors against the model fields, the
+//! length field against the octets written) for intact PDUs; for damaged
+//! streams an independent model of the header decides whether the stream
+//! *must* be refused (cut short, type the reader does not take, length that
+//! no PDU of that type can have). Completion is decided by a poll budget and
+//! by the reader's count of reads after end-of-stream, never by a clock.
+
+use crate::c07_gen::{gen_pdu, length_set, random_script, Size, KINDS};
+use crate::c07_io::{be32, drive, hex_capped, parse_header, Chunking, Pdu, TruncatingReader};
+use crate::c07_lib::{as_ref_len, build, dispatch_kind, run_entry, size_of, write, Entry, Got, Kind, Lib};
+use crate::core::{catch, hex, panic_location, Ctx, Rng, Stage, Tier};
+use rpki::rtr::payload as item;
+use rpki::rtr::pdu;
+use serde_json::{json, Value};
+use std::collections::HashSet;
+use std::net::IpAddr;
+
+//------------ expectation model ---------------------------------------------
+
+#[derive(Clone, Debug, PartialEq, Eq)]
+enum Expect {
+    /// The statement obliges an error; the string says why.
+    Err(&'static str),
+    /// A well-formed PDU of this many octets is at the front of the stream.
+    Pdu(usize),
+    /// `try_read` on an Error PDU: the header comes back, 8 octets consumed.
+    ErrorHeader,
+    /// The statement leaves acceptance open (End of Data with a version
+    /// other than 0..2); if accepted it is this long.
+    Open(usize),
+    /// The harness does not hand this to the library.
+    NotHandled,
+}
+
+/// Can a PDU read by `kind`'s reader have this header length? `None` for a
+/// length no PDU of the kind can have.
+fn length_fits(kind: Kind, version: u8, len: u32) -> Result<bool, ()> {
+    // Ok(true): fits; Ok(false): does not fit; Err(()): open (version outside 0..2 for EndOfData)
+    Ok(match kind {
+        Kind::SerialNotify | Kind::SerialQuery | Kind::EodV0 => len == 12,
+        Kind::ResetQuery | Kind::CacheResponse | Kind::CacheReset => len == 8,
+        Kind::V4 => len == 20,
+        Kind::V6 => len == 32,
+        Kind::EodV1 => len == 24,
+        Kind::Eod => match version {
+            0 => len == 12,
+            1 | 2 => len == 24,
+            _ => {
+                if len == 12 || len == 24 {
+                    return Err(());
+                }
+                false
+            }
+        },
+        Kind::RouterKey => len >= 32,
+        Kind::Aspa => len >= 12 && (len - 12) % 4 == 0,
+        Kind::Error => len >= 8,
+    })
+}
+
+fn expect_payload(kind: Kind, avail: &[u8]) -> Expect {
+    let h = match parse_header(avail) {
+        Some(h) => h,
+        None => return Expect::Err("stream-ends-inside-header"),
+    };
+    match length_fits(kind, h.version, h.length) {
+        Ok(true) => {
+            if (avail.len() as u64) < h.length as u64 {
+                Expect::Err("stream-ends-inside-pdu")
+            } else {
+                Expect::Pdu(h.length as usize)
+            }
+        }
+        Ok(false) => Expect::Err("length-impossible-for-type"),
+        Err(()) => {
+            if (avail.len() as u64) < h.length as u64 {
+                Expect::Err("stream-ends-inside-pdu")
+            } else {
+                Expect::Open(h.length as usize)
+            }
+        }
+    }
+}
+
+/// What the statement demands of `entry` when `avail` is everything the
+/// stream still holds.
+fn expect(entry: Entry, avail: &[u8]) -> Expect {
+    let h = match parse_header(avail) {
+        Some(h) => h,
+        None => return Expect::Err("stream-ends-inside-header"),
+    };
+    match entry {
+        Entry::HeaderOnly => Expect::Pdu(8),
+        Entry::SqPayload => {
+            if avail.len() < 12 {
+                Expect::Err("stream-ends-inside-pdu")
+            } else {
+                Expect::Pdu(12)
+            }
+        }
+        Entry::Typed(k) => {
+            if h.pdu != k.type_code() {
+                Expect::Err("type-not-taken-by-reader")
+            } else {
+                expect_payload(k, avail)
+            }
+        }
+        Entry::Try(k) => {
+            if h.pdu == 10 {
+                Expect::ErrorHeader
+            } else if h.pdu != k.type_code() {
+                Expect::Err("type-not-taken-by-reader")
+            } else {
+                expect_payload(k, avail)
+            }
+        }
+        Entry::PayloadRead => match h.pdu {
+            4 => expect_payload(Kind::V4, avail),
+            6 => expect_payload(Kind::V6, avail),
+            7 => expect_payload(Kind::Eod, avail),
+            9 => expect_payload(Kind::RouterKey, avail),
+            11 => expect_payload(Kind::Aspa, avail),
+            _ => Expect::Err("type-not-taken-by-reader"),
+        },
+        Entry::HeaderPayload(k) => expect_payload(k, avail),
+        Entry::Dispatch => match dispatch_kind(h.pdu) {
+            Some(k) => expect_payload(k, avail),
+            None => Expect::NotHandled,
+        },
+    }
+}
+
+/// The entry the signature should name: Dispatch resolves to the reader it
+/// picked, so one defect has one signature whichever way it was reached.
+fn effective(entry: Entry, avail: &[u8]) -> Entry {
+    if entry == Entry::Dispatch {
+        if let Some(k) = parse_header(avail).and_then(|h| dispatch_kind(h.pdu)) {
+            return Entry::HeaderPayload(k);
+        }
+    }
+    entry
+}
+
+/// Upper bound for the octets an entry may take from the stream.
+fn consumption_bound(entry: Entry, avail: &[u8]) -> usize {
+    match entry {
+        Entry::HeaderOnly => 8,
+        Entry::SqPayload => 12,
+        _ => match parse_header(avail) {
+            Some(h) => (h.length as usize).max(8),
+            None => avail.len(),
+        },
+    }
+}
+
+//------------ monitor state --------------------------------------------------
+
+struct Mon {
+    evals: u64,
+    seen: HashSet<u64>,
+    ok_reads: u64,
+    err_reads: u64,
+    eof_reads_max: u32,
+    pendings: u64,
+    polls: u64,
+    wf_refused: u64,
+    wf_accepted: u64,
+    eod_gt2_refused: u64,
+    eod_gt2_accepted: u64,
+    /// sample slots still free (avoids map look-ups on the hot path)
+    want_trunc_sample: bool,
+    want_corrupt_sample: bool,
+}
+
+#[derive(Clone, Copy)]
+enum Damage {
+    Intact,
+    Truncated { kept: usize, of: usize },
+    Type(u8),
+    Version(u8),
+    Length { announced: u32, truth: u32 },
+}
+
+impl Damage {
+    /// The class number alone (no formatting; this is on the hot path).
+    fn code(self) -> u32 {
+        match self {
+            Damage::Intact => 0,
+            Damage::Truncated { kept, of } => {
+                if kept <= 40 {
+                    100 + kept as u32
+                } else if kept + 1 == of {
+                    98
+                } else if kept <= 1040 {
+                    97
+                } else {
+                    96
+                }
+            }
+            Damage::Type(t) => {
+                if t <= 11 && t != 5 {
+                    1000 + t as u32
+                } else {
+                    1999
+                }
+            }
+            Damage::Version(v) => {
+                if v <= 3 {
+                    2000 + v as u32
+                } else {
+                    2999
+                }
+            }
+            Damage::Length { announced, truth } => {
+                if announced <= 40 {
+                    3000 + announced
+                } else if announced.abs_diff(truth) <= 4 {
+                    (3100 + (announced as i64 - truth as i64 + 4)) as u32
+                } else if announced < 0x1_0000 {
+                    3200
+                } else if announced < 0x0100_0000 {
+                    3201
+                } else if announced < 0x8000_0000 {
+                    3202
+                } else {
+                    3203
+                }
+            }
+        }
+    }
+
+    fn class(self) -> (u32, String) {
+        match self {
+            Damage::Intact => (0, "intact".into()),
+            Damage::Truncated { kept, of } => {
+                if kept <= 40 {
+                    (100 + kept as u32, format!("truncated@{}", kept))
+                } else if kept + 1 == of {
+                    (98, "truncated@len-1".into())
+                } else if kept <= 1040 {
+                    (97, "truncated@41..1040".into())
+                } else {
+                    (96, "truncated@>1040".into())
+                }
+            }
+            Damage::Type(t) => {
+                if t <= 11 && t != 5 {
+                    (1000 + t as u32, format!("type->{}", t))
+                } else {
+                    (1999, "type->unassigned".into())
+                }
+            }
+            Damage::Version(v) => {
+                if v <= 3 {
+                    (2000 + v as u32, format!("version->{}", v))
+                } else {
+                    (2999, "version->4..255".into())
+                }
+            }
+            Damage::Length { announced, truth } => {
+                if announced <= 40 {
+                    (3000 + announced, format!("length->{}", announced))
+                } else if announced.abs_diff(truth) <= 4 {
+                    let d = announced as i64 - truth as i64;
+                    (3100 + (d + 4) as u32, format!("length->true{:+}", d))
+                } else if announced < 0x1_0000 {
+                    (3200, "length->41..65535".into())
+                } else if announced < 0x0100_0000 {
+                    (3201, "length->2^16..2^24-1".into())
+                } else if announced < 0x8000_0000 {
+                    (3202, "length->2^24..2^31-1".into())
+                } else {
+                    (3203, "length->2^31..2^32-1".into())
+                }
+            }
+        }
+    }
+}
+
+fn entry_code(e: Entry) -> u64 {
+    match e {
+        Entry::Typed(k) => 0x100 + k as u64,
+        Entry::Try(k) => 0x200 + k as u64,
+        Entry::PayloadRead => 0x300,
+        Entry::HeaderPayload(k) => 0x400 + k as u64,
+        Entry::SqPayload => 0x500,
+        Entry::Dispatch => 0x600,
+        Entry::HeaderOnly => 0x700,
+    }
+}
+
+fn chunk_code(c: &Chunking) -> u64 {
+    match c {
+        Chunking::AllAtOnce => 1,
+        Chunking::ByteWise => 2,
+        Chunking::Script(_) => 3,
+    }
+}
+
+impl Mon {
+    fn class(&mut self, ctx: &mut Ctx, name: &str, kind_code: u8, version: u8, damage: Damage, chunking: &Chunking, entry: Entry) {
+        let dcode = damage.code();
+        let vclass = version.min(3);
+        let key = ((kind_code as u64) << 58) ^ ((vclass as u64) << 56) ^ ((dcode as u64) << 24) ^ (chunk_code(chunking) << 20) ^ entry_code(entry);
+        if self.seen.insert(key) {
+            let (_, dtext) = damage.class();
+            ctx.sig(&format!(
+                "{} v{} {} {} via {}",
+                name,
+                if vclass == 3 { ">2".to_string() } else { vclass.to_string() },
+                dtext,
+                chunking.label(),
+                entry.label()
+            ));
+        }
+    }
+}
+
+//------------ one read, judged ----------------------------------------------
+
+struct Case<'a> {
+    /// what the stream is (for violation details)
+    describe: &'a dyn Fn() -> Value,
+    stream: &'a [u8],
+    limit: usize,
+    chunking: &'a Chunking,
+    /// the stream is exactly what the library wrote (no damage before `limit`)
+    pristine: bool,
+}
+
+fn budget_for(stream_len: usize) -> u64 {
+    16 * (stream_len as u64 + 8) + 64
+}
+
+fn detail(case: &Case, entry: Entry, start: usize, extra: Value) -> Value {
+    json!({
+        "case": (case.describe)(),
+        "stream_hex": hex_capped(case.stream, 4096),
+        "stream_len": case.stream.len(),
+        "stream_ends_after": case.limit,
+        "delivery": format!("{:?}", case.chunking),
+        "entry": entry.label(),
+        "read_starts_at": start,
+        "observed": extra,
+    })
+}
+
+/// Reads one PDU with `entry` from `rd` and judges the outcome. Returns the
+/// value when a PDU came back and the sequence can go on.
+fn read_and_judge(ctx: &mut Ctx, mon: &mut Mon, case: &Case, rd: &mut TruncatingReader, entry: Entry, original: Option<&Lib>) -> Option<Lib> {
+    let start = rd.consumed();
+    let avail = &case.stream[start.min(case.limit)..case.limit];
+    let exp = expect(entry, avail);
+    if exp == Expect::NotHandled {
+        return None;
+    }
+    let eff = effective(entry, avail);
+    mon.evals += 1;
+    let eof_before = rd.reads_after_eof;
+    let budget = budget_for(case.stream.len());
+    let outcome = catch(|| drive(run_entry(entry, rd), budget));
+    let consumed = rd.consumed() - start;
+    mon.pendings += rd.pendings;
+    mon.polls += rd.polls;
+    rd.pendings = 0;
+    rd.polls = 0;
+    if rd.reads_after_eof > mon.eof_reads_max {
+        mon.eof_reads_max = rd.reads_after_eof;
+    }
+    let got = match outcome {
+        Err(text) => {
+            ctx.violation(
+                &format!("C07:panic:{}:{}", eff.label(), panic_location(&text)),
+                &format!("{} panicked: {}", eff.label(), text),
+                detail(case, entry, start, json!({"panic": text, "consumed": consumed})),
+            );
+            return None;
+        }
+        Ok((None, polls)) => {
+            ctx.violation(
+                &format!("C07:no-completion-within-poll-budget:{}", eff.label()),
+                &format!("{} was still pending after {} polls on a stream of {} octets", eff.label(), polls, case.limit),
+                detail(case, entry, start, json!({"polls": polls, "consumed": consumed, "reads_after_eof": rd.reads_after_eof})),
+            );
+            return None;
+        }
+        Ok((Some(g), _)) => g,
+    };
+    // spinning on a closed stream
+    if rd.tripped || rd.reads_after_eof > crate::c07_io::EOF_READS_TOLERATED {
+        ctx.violation(
+            &format!("C07:keeps-reading-after-eof:{}", eff.label()),
+            &format!(
+                "{} read the stream {} times after it had ended (it only stopped because the test reader turned the third read into an error)",
+                eff.label(), rd.reads_after_eof
+            ),
+            detail(case, entry, start, json!({"reads_after_eof": rd.reads_after_eof, "reads_after_eof_before_this_read": eof_before, "consumed": consumed, "result": got.describe()})),
+        );
+        return None;
+    }
+    // bounded consumption
+    // An accepted PDU must end where its length field says (checked below).
+    // A refusal may come after the reader took the fixed part of the type it
+    // expected (at most 32 octets), but never more than the announced PDU.
+    let bound = if got.is_err() { consumption_bound(entry, avail).max(32) } else { consumption_bound(entry, avail) };
+    if consumed > bound {
+        ctx.violation(
+            &format!("C07:overread:{}", eff.label()),
+            &format!("{} took {} octets from the stream, the PDU it was reading is {} octets long", eff.label(), consumed, bound),
+            detail(case, entry, start, json!({"consumed": consumed, "bound": bound, "result": got.describe()})),
+        );
+        return None;
+    }
+    match &got {
+        Got::Err(kind, _) => {
+            mon.err_reads += 1;
+            if mon.err_reads % 64 == 1 {
+                ctx.obs(&format!("error_kind_sampled:{:?}", kind), 1);
+            }
+            match exp {
+                Expect::Pdu(_) | Expect::ErrorHeader if case.pristine => {
+                    ctx.violation(
+                        &format!("C07:rejected-own-pdu:{}", eff.label()),
+                        &format!("{} refused a PDU the library itself wrote: {}", eff.label(), got.describe()),
+                        detail(case, entry, start, json!({"result": got.describe(), "consumed": consumed})),
+                    );
+                }
+                Expect::Pdu(_) | Expect::ErrorHeader => mon.wf_refused += 1,
+                Expect::Open(_) => mon.eod_gt2_refused += 1,
+                _ => {}
+            }
+            None
+        }
+        Got::NotHandled(_) => None,
+        ok => {
+            mon.ok_reads += 1;
+            let expected_len = match exp {
+                Expect::Err(reason) => {
+                    ctx.violation(
+                        &format!("C07:accepted-damaged-stream:{}:{}", eff.label(), reason),
+                        &format!("{} returned {} although the stream is damaged ({})", eff.label(), ok.describe(), reason),
+                        detail(case, entry, start, json!({"result": ok.describe(), "consumed": consumed, "available": avail.len()})),
+                    );
+                    return None;
+                }
+                Expect::Pdu(n) => n,
+                Expect::Open(n) => {
+                    mon.eod_gt2_accepted += 1;
+                    n
+                }
+                Expect::ErrorHeader => 8,
+                Expect::NotHandled => return None,
+            };
+            if !case.pristine {
+                mon.wf_accepted += 1;
+            }
+            if exp == Expect::ErrorHeader {
+                match ok {
+                    Got::ErrorHeader(h) => {
+                        let same = write(&Lib::Header(*h)).map(|b| b[..] == avail[..8]).unwrap_or(false);
+                        if !same || consumed != 8 {
+                            ctx.violation(
+                                &format!("C07:error-header-differs:{}", eff.label()),
+                                "try_read returned an Error PDU header that is not the one on the wire, or took more than the header",
+                                detail(case, entry, start, json!({"result": ok.describe(), "consumed": consumed})),
+                            );
+                        }
+                    }
+                    _ => {
+                        ctx.violation(
+                            &format!("C07:accepted-damaged-stream:{}:type-not-taken-by-reader", eff.label()),
+                            &format!("{} returned {} for an Error PDU header", eff.label(), ok.describe()),
+                            detail(case, entry, start, json!({"result": ok.describe(), "consumed": consumed})),
+                        );
+                    }
+                }
+                return None;
+            }
+            if consumed != expected_len {
+                ctx.violation(
+                    &format!("C07:consumed-differs-from-length-field:{}", eff.label()),
+                    &format!("{} returned Ok after taking {} octets, the header's length field says {}", eff.label(), consumed, expected_len),
+                    detail(case, entry, start, json!({"result": ok.describe(), "consumed": consumed, "length_field": expected_len})),
+                );
+                return None;
+            }
+            match ok {
+                Got::Pdu(lib) => {
+                    let back = catch(|| write(lib));
+                    let wire = &avail[..expected_len];
+                    match back {
+                        Ok(Some(b)) if b[..] == *wire => {}
+                        Ok(other) => {
+                            ctx.violation(
+                                &format!("C07:read-back-octets-differ:{}", eff.label()),
+                                &format!("the value {} returned does not write back to the octets it was read from", eff.label()),
+                                detail(case, entry, start, json!({"result": ok.describe(), "rewritten": other.map(|b| hex_capped(&b, 512)), "wire": hex_capped(wire, 512)})),
+                            );
+                            return None;
+                        }
+                        Err(text) => {
+                            ctx.violation(
+                                &format!("C07:panic:write-after-{}:{}", eff.label(), panic_location(&text)),
+                                &format!("writing the value returned by {} panicked: {}", eff.label(), text),
+                                detail(case, entry, start, json!({"panic": text})),
+                            );
+                            return None;
+                        }
+                    }
+                    if let Some(orig) = original {
+                        if case.pristine && !matches!(lib, Lib::Sq(..) | Lib::Header(_)) && lib != orig {
+                            ctx.violation(
+                                &format!("C07:read-back-value-differs:{}", eff.label()),
+                                &format!("{} returned a value that is not equal to the one written", eff.label()),
+                                detail(case, entry, start, json!({"read": format!("{:?}", lib), "written": format!("{:?}", orig)})),
+                            );
+                            return None;
+                        }
+                    }
+                    Some(lib.clone())
+                }
+                Got::Skipped => Some(Lib::Error(pdu::Error::default())),
+                Got::Unsupported => {
+                    ctx.obs("payload_read_returned_unsupported", 1);
+                    None
+                }
+                _ => None,
+            }
+        }
+    }
+}
+
+//------------ accessors against the model -----------------------------------
+
+fn mismatch(ctx: &mut Ctx, m: &Pdu, what: &str, got: String, want: String, via: &str) {
+    ctx.violation(
+        &format!("C07:field-differs:{}:{}", m.name(), what),
+        &format!("{} of {} {} is {}, written was {}", what, m.name(), via, got, want),
+        json!({"model": m.to_json(), "wire_hex": hex_capped(&m.encode(), 512), "field": what, "observed": got, "expected": want, "via": via}),
+    );
+}
+
+macro_rules! field {
+    ($ctx:expr, $m:expr, $via:expr, $what:expr, $got:expr, $want:expr) => {{
+        let g = $got;
+        let w = $want;
+        if g != w {
+            mismatch($ctx, $m, $what, format!("{:?}", g), format!("{:?}", w), $via);
+        }
+    }};
+}
+
+/// Compares what the library's accessors say about `lib` with the model.
+fn check_accessors(ctx: &mut Ctx, m: &Pdu, lib: &Lib, via: &str) {
+    let bytes = write(lib).unwrap_or_default();
+    match (m, lib) {
+        (Pdu::SerialNotify { v, session, serial }, Lib::SerialNotify(x)) => {
+            field!(ctx, m, via, "version", x.version(), *v);
+            field!(ctx, m, via, "session", x.session(), *session);
+            field!(ctx, m, via, "serial", be32(&bytes, 8), Some(*serial));
+        }
+        (Pdu::SerialQuery { v, session, serial }, Lib::SerialQuery(x)) => {
+            field!(ctx, m, via, "version", x.version(), *v);
+            field!(ctx, m, via, "session", x.session(), *session);
+            field!(ctx, m, via, "serial", be32(&bytes, 8), Some(*serial));
+        }
+        (Pdu::SerialQuery { serial, session, v }, Lib::Sq(h, p)) => {
+            field!(ctx, m, via, "version", h.version(), *v);
+            field!(ctx, m, via, "session", h.session(), *session);
+            field!(ctx, m, via, "serial", u32::from(p.serial()), *serial);
+        }
+        (Pdu::ResetQuery { v }, Lib::ResetQuery(x)) => {
+            field!(ctx, m, via, "version", x.version(), *v);
+            field!(ctx, m, via, "session", x.session(), 0u16);
+        }
+        (Pdu::CacheReset { v }, Lib::CacheReset(x)) => {
+            field!(ctx, m, via, "version", x.version(), *v);
+            field!(ctx, m, via, "session", x.session(), 0u16);
+        }
+        (Pdu::CacheResponse { v, session }, Lib::CacheResponse(x)) => {
+            field!(ctx, m, via, "version", x.version(), *v);
+            field!(ctx, m, via, "session", x.session(), *session);
+        }
+        (Pdu::V4 { v, flags, plen, mlen, addr, asn, .. }, Lib::Payload(p @ pdu::Payload::V4(x))) => {
+            field!(ctx, m, via, "version", p.version(), *v);
+            field!(ctx, m, via, "flags", p.flags(), *flags);
+            field!(ctx, m, via, "prefix_len", x.prefix_len(), *plen);
+            field!(ctx, m, via, "max_len", x.max_len(), *mlen);
+            field!(ctx, m, via, "prefix", u32::from(x.prefix()), *addr);
+            field!(ctx, m, via, "asn", x.asn().into_u32(), *asn);
+        }
+        (Pdu::V6 { v, flags, plen, mlen, addr, asn, .. }, Lib::Payload(p @ pdu::Payload::V6(x))) => {
+            field!(ctx, m, via, "version", p.version(), *v);
+            field!(ctx, m, via, "flags", p.flags(), *flags);
+            field!(ctx, m, via, "prefix_len", x.prefix_len(), *plen);
+            field!(ctx, m, via, "max_len", x.max_len(), *mlen);
+            field!(ctx, m, via, "prefix", u128::from(x.prefix()), *addr);
+            field!(ctx, m, via, "asn", x.asn().into_u32(), *asn);
+        }
+        (Pdu::RouterKey { v, flags, ski, asn, info, .. }, Lib::Payload(p @ pdu::Payload::RouterKey(x))) => {
+            field!(ctx, m, via, "version", p.version(), *v);
+            field!(ctx, m, via, "flags", p.flags(), *flags);
+            field!(ctx, m, via, "key_identifier", x.key_identifier(), *ski);
+            field!(ctx, m, via, "asn", x.asn().into_u32(), *asn);
+            field!(ctx, m, via, "key_info", hex_capped(x.key_info().as_slice(), 64), hex_capped(info, 64));
+            field!(ctx, m, via, "key_info_len", x.key_info().as_slice().len(), info.len());
+            field!(ctx, m, via, "size", x.size() as usize, 32 + info.len());
+        }
+        (Pdu::Aspa { v, flags, customer, providers, .. }, Lib::Payload(p @ pdu::Payload::Aspa(x))) => {
+            field!(ctx, m, via, "version", p.version(), *v);
+            field!(ctx, m, via, "flags", p.flags(), *flags);
+            field!(ctx, m, via, "customer", x.customer().into_u32(), *customer);
+            let got: Vec<u32> = x.providers().iter().map(|a| a.into_u32()).collect();
+            field!(ctx, m, via, "provider_count", got.len(), providers.len());
+            field!(ctx, m, via, "asn_count", x.providers().asn_count() as usize, providers.len());
+            if got != *providers {
+                let at = got.iter().zip(providers.iter()).position(|(a, b)| a != b);
+                mismatch(ctx, m, "providers", format!("differs at index {:?}", at), "equal lists".into(), via);
+            }
+            field!(ctx, m, via, "size", x.size() as usize, 12 + 4 * providers.len());
+        }
+        (Pdu::EndOfData { v, session, serial, refresh, retry, expire }, Lib::Eod(x)) => {
+            field!(ctx, m, via, "version", x.version(), *v);
+            field!(ctx, m, via, "session", x.session(), *session);
+            field!(ctx, m, via, "serial", u32::from(x.serial()), *serial);
+            field!(ctx, m, via, "state.session", x.state().session(), *session);
+            field!(ctx, m, via, "state.serial", u32::from(x.state().serial()), *serial);
+            let t = x.timing().map(|t| (t.refresh, t.retry, t.expire));
+            if *v == 0 {
+                field!(ctx, m, via, "timing", t, None::<(u32, u32, u32)>);
+            } else {
+                field!(ctx, m, via, "timing", t, Some((*refresh, *retry, *expire)));
+            }
+        }
+        (Pdu::Error { .. }, Lib::Error(_)) => {}
+        _ => {
+            ctx.violation(
+                &format!("C07:read-back-kind-differs:{}", m.name()),
+                &format!("{} came back as a different kind of value {}", m.name(), via),
+                json!({"model": m.to_json(), "value": format!("{:?}", lib).chars().take(300).collect::<String>(), "via": via}),
+            );
+        }
+    }
+}
+
+/// `to_payload` of a payload PDU against the model.
+fn check_to_payload(ctx: &mut Ctx, m: &Pdu, p: &pdu::Payload, original: Option<&item::Payload>, via: &str) {
+    let res = match catch(|| p.to_payload()) {
+        Ok(r) => r,
+        Err(text) => {
+            ctx.violation(
+                &format!("C07:panic:to_payload:{}", panic_location(&text)),
+                &format!("to_payload panicked: {}", text),
+                json!({"model": m.to_json(), "wire_hex": hex_capped(&m.encode(), 512)}),
+            );
+            return;
+        }
+    };
+    let flags = match m {
+        Pdu::V4 { flags, .. } | Pdu::V6 { flags, .. } | Pdu::RouterKey { flags, .. } | Pdu::Aspa { flags, .. } => *flags,
+        _ => return,
+    };
+    let want_action = if flags & 1 == 1 { item::Action::Announce } else { item::Action::Withdraw };
+    let (max, plen, mlen) = match m {
+        Pdu::V4 { plen, mlen, .. } => (32u8, *plen, *mlen),
+        Pdu::V6 { plen, mlen, .. } => (128u8, *plen, *mlen),
+        _ => (0, 0, 0),
+    };
+    let lengths_valid = plen <= max && mlen <= max && plen <= mlen;
+    let (action, got) = match res {
+        Ok(x) => x,
+        Err(_) => {
+            if original.is_some() {
+                ctx.violation(
+                    &format!("C07:to_payload-refuses-own-item:{}", m.name()),
+                    "to_payload returned an error for a PDU made from a valid payload item",
+                    json!({"model": m.to_json(), "via": via}),
+                );
+            } else if matches!(m, Pdu::V4 { .. } | Pdu::V6 { .. }) && !lengths_valid {
+                ctx.obs("to_payload_refused_invalid_lengths", 1);
+            } else {
+                ctx.obs("to_payload_refused_raw_pdu", 1);
+            }
+            return;
+        }
+    };
+    ctx.obs("to_payload_ok", 1);
+    if flags <= 1 {
+        field!(ctx, m, via, "action", action, want_action);
+    } else {
+        ctx.obs("flags_above_1_seen_by_to_payload", 1);
+    }
+    match (m, &got) {
+        (Pdu::V4 { addr, asn, .. }, item::Payload::Origin(o)) => {
+            if !lengths_valid {
+                ctx.violation(
+                    "C07:to_payload-accepts-impossible-prefix-lengths:Ipv4Prefix",
+                    "to_payload produced a route origin from an IPv4 PDU whose prefix length / max length cannot exist",
+                    json!({"model": m.to_json(), "item": format!("{:?}", o)}),
+                );
+                return;
+            }
+            let masked = if plen == 0 { 0 } else { addr & (u32::MAX << (32 - plen as u32)) };
+            field!(ctx, m, via, "item.prefix_len", o.prefix.prefix_len(), plen);
+            field!(ctx, m, via, "item.max_len", o.prefix.resolved_max_len(), mlen);
+            field!(ctx, m, via, "item.asn", o.asn.into_u32(), *asn);
+            field!(ctx, m, via, "item.addr", o.prefix.addr(), IpAddr::V4(masked.into()));
+        }
+        (Pdu::V6 { addr, asn, .. }, item::Payload::Origin(o)) => {
+            if !lengths_valid {
+                ctx.violation(
+                    "C07:to_payload-accepts-impossible-prefix-lengths:Ipv6Prefix",
+                    "to_payload produced a route origin from an IPv6 PDU whose prefix length / max length cannot exist",
+                    json!({"model": m.to_json(), "item": format!("{:?}", o)}),
+                );
+                return;
+            }
+            let masked = if plen == 0 { 0 } else { addr & (u128::MAX << (128 - plen as u32)) };
+            field!(ctx, m, via, "item.prefix_len", o.prefix.prefix_len(), plen);
+            field!(ctx, m, via, "item.max_len", o.prefix.resolved_max_len(), mlen);
+            field!(ctx, m, via, "item.asn", o.asn.into_u32(), *asn);
+            field!(ctx, m, via, "item.addr", o.prefix.addr(), IpAddr::V6(masked.into()));
+        }
+        (Pdu::RouterKey { ski, asn, info, .. }, item::Payload::RouterKey(k)) => {
+            field!(ctx, m, via, "item.key_identifier", hex(k.key_identifier.as_slice()), hex(ski));
+            field!(ctx, m, via, "item.asn", k.asn.into_u32(), *asn);
+            field!(ctx, m, via, "item.key_info", hex_capped(k.key_info.as_slice(), 64), hex_capped(info, 64));
+            field!(ctx, m, via, "item.key_info_len", k.key_info.as_slice().len(), info.len());
+        }
+        (Pdu::Aspa { customer, providers, .. }, item::Payload::Aspa(a)) => {
+            field!(ctx, m, via, "item.customer", a.customer.into_u32(), *customer);
+            let got: Vec<u32> = a.providers.iter().map(|x| x.into_u32()).collect();
+            // a withdrawal is keyed by the customer; the provider list may be dropped
+            let ok = got == *providers || (action == item::Action::Withdraw && got.is_empty());
+            if !ok {
+                mismatch(ctx, m, "item.providers", format!("{} providers, first {:?}", got.len(), got.first()), format!("{} providers, first {:?}", providers.len(), providers.first()), via);
+            }
+        }
+        _ => {
+            ctx.violation(
+                &format!("C07:to_payload-kind-differs:{}", m.name()),
+                "to_payload produced an item of a different kind",
+                json!({"model": m.to_json(), "item": format!("{:?}", got).chars().take(300).collect::<String>()}),
+            );
+            return;
+        }
+    }
+    if let Some(orig) = original {
+        let same = got == *orig
+            || match (orig, &got) {
+                (item::Payload::Aspa(o), item::Payload::Aspa(g)) => action == item::Action::Withdraw && *g == o.withdraw(),
+                _ => false,
+            };
+        if !same {
+            ctx.violation(
+                &format!("C07:item-differs-after-round-trip:{}", m.name()),
+                "the payload item obtained from the PDU read back is not equal to the item that was written",
+                json!({"model": m.to_json(), "written": format!("{:?}", orig).chars().take(300).collect::<String>(), "read": format!("{:?}", got).chars().take(300).collect::<String>(), "via": via}),
+            );
+        }
+    }
+}
+
+//------------ entries for a model value -------------------------------------
+
+fn entries_for(m: &Pdu) -> Vec<Entry> {
+    let k = Kind::of(m);
+    let mut v = Vec::new();
+    if k.has_read() {
+        v.push(Entry::Typed(k));
+    }
+    if k.has_try_read() {
+        v.push(Entry::Try(k));
+    }
+    if matches!(k, Kind::V4 | Kind::V6 | Kind::RouterKey | Kind::Aspa | Kind::EodV0 | Kind::EodV1) {
+        v.push(Entry::PayloadRead);
+    }
+    v.push(Entry::HeaderPayload(k));
+    if matches!(k, Kind::EodV0 | Kind::EodV1) {
+        v.push(Entry::HeaderPayload(Kind::Eod));
+    }
+    v.push(Entry::Dispatch);
+    if k == Kind::SerialQuery {
+        v.push(Entry::SqPayload);
+    }
+    v
+}
+
+/// The entry a reader that knows what comes next would use.
+fn typed_entry(m: &Pdu) -> Entry {
+    let k = Kind::of(m);
+    if k.has_read() {
+        Entry::Typed(k)
+    } else {
+        Entry::HeaderPayload(k)
+    }
+}
+
+fn is_payload_seq_member(m: &Pdu) -> bool {
+    matches!(m, Pdu::V4 { .. } | Pdu::V6 { .. } | Pdu::RouterKey { .. } | Pdu::Aspa { .. } | Pdu::EndOfData { .. })
+}
+
+//------------ round trip -----------------------------------------------------
+
+const TRAILER: [u8; 16] = [0x01, 0x02, 0x00, 0x00, 0x00, 0x00, 0x00, 0x08, 0xEE, 0xEE, 0xEE, 0xEE, 0xEE, 0xEE, 0xEE, 0xEE];
+
+/// Builds, writes, checks the written octets and reads back through every
+/// entry point. Returns the library value and its octets.
+fn roundtrip(ctx: &mut Ctx, mon: &mut Mon, m: &Pdu) -> Option<(Lib, Vec<u8>)> {
+    let built = catch(|| {
+        let (lib, it) = build(m);
+        let w = write(&lib);
+        (lib, it, w)
+    });
+    let (lib, it, w) = match built {
+        Ok(x) => x,
+        Err(text) => {
+            ctx.violation(
+                &format!("C07:panic:construct-or-write:{}:{}", m.name(), panic_location(&text)),
+                &format!("constructing or writing {} panicked: {}", m.name(), text),
+                json!({"model": m.to_json()}),
+            );
+            return None;
+        }
+    };
+    let w = match w {
+        Some(w) => w,
+        None => {
+            ctx.violation(&format!("C07:write-failed:{}", m.name()), "write into a Vec returned an error", json!({"model": m.to_json()}));
+            return None;
+        }
+    };
+    mon.evals += 1;
+    // the length field and the octets written
+    let field = be32(&w, 4);
+    if field != Some(w.len() as u32) {
+        ctx.violation(
+            &format!("C07:length-field-differs-from-octets-written:{}", m.name()),
+            &format!("{}: length field {:?}, {} octets written", m.name(), field, w.len()),
+            json!({"model": m.to_json(), "written_hex": hex_capped(&w, 512), "length_field": field, "octets_written": w.len()}),
+        );
+    }
+    if let Some(s) = size_of(&lib) {
+        if s as usize != w.len() {
+            ctx.violation(
+                &format!("C07:size-differs-from-octets-written:{}", m.name()),
+                &format!("{}: size() = {}, {} octets written", m.name(), s, w.len()),
+                json!({"model": m.to_json(), "size": s, "octets_written": w.len()}),
+            );
+        }
+    }
+    if let Some(s) = as_ref_len(&lib) {
+        if s != w.len() {
+            ctx.violation(
+                &format!("C07:as_ref-len-differs-from-octets-written:{}", m.name()),
+                &format!("{}: as_ref().len() = {}, {} octets written", m.name(), s, w.len()),
+                json!({"model": m.to_json(), "as_ref_len": s, "octets_written": w.len()}),
+            );
+        }
+    }
+    // the documents' layout
+    let want = m.encode();
+    if w != want {
+        let at = w.iter().zip(want.iter()).position(|(a, b)| a != b).unwrap_or(w.len().min(want.len()));
+        ctx.violation(
+            &format!("C07:written-octets-differ-from-rfc-layout:{}", m.name()),
+            &format!("{} is not laid out as RFC 6810/8210 prescribe (first difference at octet {})", m.name(), at),
+            json!({"model": m.to_json(), "written_hex": hex_capped(&w, 512), "expected_hex": hex_capped(&want, 512), "first_difference": at}),
+        );
+    }
+    check_accessors(ctx, m, &lib, "as constructed");
+    if let Lib::Payload(p) = &lib {
+        check_to_payload(ctx, m, p, it.as_ref(), "as constructed");
+    }
+    // read back: once with more data behind the PDU, once with the stream ending right after it
+    let mut stream = w.clone();
+    stream.extend_from_slice(&TRAILER);
+    let describe = || json!({"kind": "round trip", "model": m.to_json()});
+    let chunk = Chunking::AllAtOnce;
+    for entry in entries_for(m) {
+        for limit in [stream.len(), w.len()] {
+            let case = Case { describe: &describe, stream: &stream, limit, chunking: &chunk, pristine: true };
+            let mut rd = TruncatingReader::new(&stream, limit, chunk.clone());
+            mon.class(ctx, m.name(), Kind::of(m) as u8, m.version(), Damage::Intact, &chunk, entry);
+            let back = read_and_judge(ctx, mon, &case, &mut rd, entry, Some(&lib));
+            if limit == w.len() && rd.reads_after_eof > 0 {
+                ctx.obs("intact_pdu_read_touched_eof", 1);
+            }
+            match back {
+                Some(b) => {
+                    if limit == stream.len() && !matches!(b, Lib::Error(_)) {
+                        let via = format!("read back via {}", entry.label());
+                        check_accessors(ctx, m, &b, &via);
+                        if let Lib::Payload(p) = &b {
+                            check_to_payload(ctx, m, p, it.as_ref(), &via);
+                        }
+                    }
+                }
+                None => {
+                    // a violation was recorded by read_and_judge (pristine streams must read back)
+                }
+            }
+        }
+    }
+    if ctx.wants_sample("round-trip") {
+        let lenf = field;
+        ctx.sample("round-trip", || json!({"model": m.to_json(), "written_hex": hex_capped(&w, 96), "length_field": lenf, "octets_written": w.len(), "read_back_equal_via": entries_for(m).iter().map(|e| e.label()).collect::<Vec<_>>()}));
+    }
+    Some((lib, w))
+}
+
+//------------ truncation enumeration ----------------------------------------
+
+/// Truncation lengths to try for a stream: all of them up to `all_up_to`
+/// octets, otherwise a boundary-dense subset.
+fn cut_points(len: usize, bounds: &[usize], all_up_to: usize, r: &mut Rng) -> Vec<usize> {
+    if len <= all_up_to {
+        return (0..len).collect();
+    }
+    let mut v: Vec<usize> = (0..64.min(len)).collect();
+    for b in bounds {
+        for d in 0..6usize {
+            if *b >= d {
+                v.push(b - d);
+            }
+            v.push(b + d);
+            v.push(b + 8 + d);
+            v.push(b + 32 + d);
+        }
+    }
+    for edge in [1023usize, 1024, 1025, 1031, 1032, 1033, 2048, 4096, 65535, 65536] {
+        v.push(edge);
+    }
+    for _ in 0..48 {
+        v.push(r.usize_below(len));
+    }
+    v.retain(|x| *x < len);
+    v.sort();
+    v.dedup();
+    v
+}
+
+/// Feeds `stream[..cut]` for every cut in `cuts` to the readers in
+/// `entries` (one per PDU of the stream, used in order).
+#[allow(clippy::too_many_arguments)]
+fn truncations(
+    ctx: &mut Ctx,
+    mon: &mut Mon,
+    models: &[&Pdu],
+    libs: &[&Lib],
+    stream: &[u8],
+    bounds: &[usize],
+    entries: &[Entry],
+    chunking: &Chunking,
+    cuts: &[usize],
+) {
+    let describe = || json!({"kind": "truncated stream", "pdus": models.iter().map(|m| m.to_json()).collect::<Vec<_>>(), "pdu_boundaries": bounds});
+    for &cut in cuts {
+        let case = Case { describe: &describe, stream, limit: cut, chunking, pristine: true };
+        let mut rd = TruncatingReader::new(stream, cut, chunking.clone());
+        for (i, entry) in entries.iter().enumerate() {
+            if rd.consumed() != bounds[i] {
+                break;
+            }
+            let m = models[i];
+            let damage = if cut >= bounds[i + 1] { Damage::Intact } else { Damage::Truncated { kept: cut - bounds[i], of: bounds[i + 1] - bounds[i] } };
+            mon.class(ctx, m.name(), Kind::of(m) as u8, m.version(), damage, chunking, *entry);
+            let back = read_and_judge(ctx, mon, &case, &mut rd, *entry, Some(libs[i]));
+            if back.is_none() {
+                if cut < bounds[i + 1] && mon.want_trunc_sample {
+                    mon.want_trunc_sample = ctx.wants_sample("truncation");
+                }
+                if cut < bounds[i + 1] && mon.want_trunc_sample {
+                    let e = *entry;
+                    let reads = rd.reads_after_eof;
+                    let taken = rd.consumed();
+                    ctx.sample("truncation", || json!({"pdus": models.iter().map(|m| m.name()).collect::<Vec<_>>(), "stream_len": stream.len(), "cut_at": cut, "delivery": chunking.label(), "entry": e.label(), "outcome": "Err", "reads_after_eof": reads, "octets_taken": taken}));
+                }
+                break;
+            }
+        }
+    }
+}
+
+//------------ header corruption ---------------------------------------------
+
+fn corrupt_one(ctx: &mut Ctx, mon: &mut Mon, m: &Pdu, w: &[u8], at: usize, new: &[u8], damage: Damage, entries: &[Entry], chunking: &Chunking, extra_entries: &[Entry]) {
+    let mut stream = w.to_vec();
+    stream[at..at + new.len()].copy_from_slice(new);
+    stream.extend_from_slice(&TRAILER);
+    let unchanged = stream[..w.len()] == *w;
+    let describe = || {
+        json!({"kind": "header field overwritten", "model": m.to_json(), "field_offset": at, "new_value_hex": hex(new), "original_hex": hex_capped(w, 256)})
+    };
+    let case = Case { describe: &describe, stream: &stream, limit: stream.len(), chunking, pristine: unchanged };
+    let hv = stream[0];
+    for entry in entries.iter().chain(extra_entries.iter()) {
+        let mut rd = TruncatingReader::new(&stream, stream.len(), chunking.clone());
+        mon.class(ctx, m.name(), Kind::of(m) as u8, hv, if unchanged { Damage::Intact } else { damage }, chunking, *entry);
+        let errs_before = mon.err_reads;
+        let _ = read_and_judge(ctx, mon, &case, &mut rd, *entry, None);
+        if !unchanged && mon.want_corrupt_sample {
+            mon.want_corrupt_sample = ctx.wants_sample("header-corruption");
+        }
+        if !unchanged && mon.want_corrupt_sample {
+            let e = *entry;
+            let refused = mon.err_reads > errs_before;
+            let taken = rd.consumed();
+            let (_, dtext) = damage.class();
+            ctx.sample("header-corruption", || json!({"pdu": m.name(), "change": dtext, "header_hex": hex(&stream[..8]), "entry": e.label(), "outcome": if refused { "Err" } else { "Ok" }, "octets_taken": taken}));
+        }
+    }
+}
+
+/// Every type octet, every version octet, a boundary set of lengths.
+fn corruptions(ctx: &mut Ctx, mon: &mut Mon, m: &Pdu, w: &[u8], cap: u32, reduced: u8, chunking: &Chunking) {
+    let entries = entries_for(m);
+    // readers of other types pointed at this stream are covered by the type change
+    let types: Vec<u8> = match reduced {
+        0 => (0..=255).collect(),
+        1 => vec![0, 1, 2, 3, 4, 5, 6, 7, 8, 9, 10, 11, 12, 0x80, 0xFF],
+        _ => vec![5, 10, if m.type_code() == 11 { 9 } else { 11 }, 0xFF],
+    };
+    for t in types {
+        // when the type octet names another known type, its own readers are asked too
+        let mut extra: Vec<Entry> = Vec::new();
+        if let Some(k) = dispatch_kind(t) {
+            if k.has_read() && k.type_code() != m.type_code() {
+                extra.push(Entry::Typed(k));
+            }
+            if t == 7 && m.type_code() != 7 {
+                extra.push(Entry::Typed(Kind::EodV0));
+                extra.push(Entry::Typed(Kind::EodV1));
+            }
+        }
+        if !entries.contains(&Entry::PayloadRead) {
+            extra.push(Entry::PayloadRead);
+        }
+        corrupt_one(ctx, mon, m, w, 1, &[t], Damage::Type(t), &entries, chunking, &extra);
+    }
+    let versions: Vec<u8> = match reduced {
+        0 => (0..=255).collect(),
+        1 => vec![0, 1, 2, 3, 0x7F, 0xFF],
+        _ => vec![(m.version() + 1) % 3, 3],
+    };
+    for v in versions {
+        corrupt_one(ctx, mon, m, w, 0, &[v], Damage::Version(v), &entries, chunking, &[]);
+    }
+    let truth = w.len() as u32;
+    let lens: Vec<u32> = match reduced {
+        0 => length_set(truth, cap),
+        1 => vec![0, 7, 8, 9, 11, 12, 13, truth.saturating_sub(1), truth + 1, truth + 4, 1033.min(cap)],
+        _ => vec![7, truth.saturating_sub(1), truth + 4],
+    };
+    for l in lens {
+        corrupt_one(ctx, mon, m, w, 4, &l.to_be_bytes(), Damage::Length { announced: l, truth }, &entries, chunking, &[]);
+    }
+}
+
+//------------ run ------------------------------------------------------------
 
 pub fn run(ctx: &mut Ctx) {
-    ctx.notes.push("C07: monitor not built yet".into());
+    let mut mon = Mon { evals: 0, seen: HashSet::new(), ok_reads: 0, err_reads: 0, eof_reads_max: 0, pendings: 0, polls: 0, wf_refused: 0, wf_accepted: 0, eod_gt2_refused: 0, eod_gt2_accepted: 0, want_trunc_sample: true, want_corrupt_sample: true };
+    let miri = ctx.stage == Stage::Miri;
+    let mut rng = ctx.rng("values");
+    let mut rng_io = ctx.rng("delivery");
+
+    if miri {
+        // every PDU type, one value each, all truncations, reduced header changes
+        for which in 0..KINDS {
+            if !ctx.mine(which) {
+                continue;
+            }
+            let mut r = Rng::derive(ctx.seed, &["C07", "miri-value"], &[which]);
+            let m = gen_pdu(&mut r, which, Size::Tiny);
+            ctx.breadcrumb(&format!("miri {:?}", m));
+            let Some((lib, w)) = roundtrip(ctx, &mut mon, &m) else { continue };
+            let bounds = [0, w.len()];
+            let all: Vec<usize> = (0..w.len()).collect();
+            let main = typed_entry(&m);
+            let script = random_script(&mut r);
+            if ctx.tier == Tier::Thorough {
+                for entry in entries_for(&m) {
+                    truncations(ctx, &mut mon, &[&m], &[&lib], &w, &bounds, &[entry], &Chunking::AllAtOnce, &all);
+                }
+                truncations(ctx, &mut mon, &[&m], &[&lib], &w, &bounds, &[main], &Chunking::ByteWise, &all);
+                truncations(ctx, &mut mon, &[&m], &[&lib], &w, &bounds, &[Entry::Dispatch], &script, &all);
+                corruptions(ctx, &mut mon, &m, &w, 2048, 1, &Chunking::AllAtOnce);
+            } else {
+                // all truncations once per delivery pattern, spread over the entry points
+                truncations(ctx, &mut mon, &[&m], &[&lib], &w, &bounds, &[main], &Chunking::AllAtOnce, &all);
+                truncations(ctx, &mut mon, &[&m], &[&lib], &w, &bounds, &[Entry::Dispatch], &Chunking::ByteWise, &all);
+                let third = if entries_for(&m).contains(&Entry::PayloadRead) { Entry::PayloadRead } else { Entry::HeaderPayload(Kind::of(&m)) };
+                truncations(ctx, &mut mon, &[&m], &[&lib], &w, &bounds, &[third], &script, &all);
+                corruptions(ctx, &mut mon, &m, &w, 2048, 2, &Chunking::AllAtOnce);
+            }
+        }
+    } else {
+        let values = ctx.stage_budget((600 * KINDS, 600_000), 40_000, 0, 0);
+        let large_every = 48;
+        let corrupt_every = match (ctx.stage, ctx.tier) {
+            (Stage::Native, Tier::Quick) => 4,
+            (Stage::Native, Tier::Thorough) => 10,
+            _ => 12,
+        };
+        let cap: u32 = if ctx.stage == Stage::Native { 0x0100_0004 } else { 0x1_0004 };
+        let mut recent: Vec<(Pdu, Lib, Vec<u8>)> = Vec::new();
+        let seq_budget = ctx.stage_budget((400, 60_000), 2_000, 0, 0);
+        let mut seqs_done = 0u64;
+        for i in 0..values {
+            let which = i % KINDS;
+            let round = i / KINDS;
+            let size = if (which == 9 || which == 11) && round % large_every == large_every - 1 { Size::Large } else { Size::Normal };
+            let m = gen_pdu(&mut rng, which, size);
+            if i % 256 == 0 {
+                ctx.breadcrumb(&format!("value {} {:?}", i, m.to_json()));
+            }
+            let Some((lib, w)) = roundtrip(ctx, &mut mon, &m) else { continue };
+            let bounds = [0, w.len()];
+            // every truncation length, three delivery patterns
+            let full_fault = ctx.tier == Tier::Quick || round % 4 == 0 || ctx.stage != Stage::Native;
+            if full_fault {
+                let cuts_all = cut_points(w.len(), &bounds, 4096, &mut rng_io);
+                for entry in entries_for(&m) {
+                    truncations(ctx, &mut mon, &[&m], &[&lib], &w, &bounds, &[entry], &Chunking::AllAtOnce, &cuts_all);
+                }
+                let cuts_bw = cut_points(w.len(), &bounds, 160, &mut rng_io);
+                let cuts_sc = cut_points(w.len(), &bounds, 600, &mut rng_io);
+                let script = random_script(&mut rng_io);
+                for entry in [typed_entry(&m), Entry::Dispatch] {
+                    truncations(ctx, &mut mon, &[&m], &[&lib], &w, &bounds, &[entry], &Chunking::ByteWise, &cuts_bw);
+                    truncations(ctx, &mut mon, &[&m], &[&lib], &w, &bounds, &[entry], &script, &cuts_sc);
+                }
+                if entries_for(&m).contains(&Entry::PayloadRead) {
+                    truncations(ctx, &mut mon, &[&m], &[&lib], &w, &bounds, &[Entry::PayloadRead], &Chunking::ByteWise, &cuts_bw);
+                    truncations(ctx, &mut mon, &[&m], &[&lib], &w, &bounds, &[Entry::PayloadRead], &script, &cuts_sc);
+                }
+            }
+            if round % corrupt_every == 0 {
+                let chunking = match round / corrupt_every % 3 {
+                    0 => Chunking::AllAtOnce,
+                    1 => random_script(&mut rng_io),
+                    _ => Chunking::AllAtOnce,
+                };
+                corruptions(ctx, &mut mon, &m, &w, cap, 0, &chunking);
+            }
+            // two- and three-PDU streams out of the most recent small values
+            if w.len() <= 300 {
+                recent.push((m, lib, w));
+                if recent.len() > 3 {
+                    recent.remove(0);
+                }
+            }
+            if seqs_done < seq_budget && recent.len() >= 2 && (ctx.tier == Tier::Thorough || i % 8 == 7) {
+                let n = if recent.len() >= 3 && rng_io.bool() { 3 } else { 2 };
+                let mut order: Vec<usize> = (recent.len() - n..recent.len()).collect();
+                rng_io.shuffle(&mut order);
+                let models: Vec<&Pdu> = order.iter().map(|j| &recent[*j].0).collect();
+                let libs: Vec<&Lib> = order.iter().map(|j| &recent[*j].1).collect();
+                let mut stream = Vec::new();
+                let mut bnds = vec![0usize];
+                for j in &order {
+                    stream.extend_from_slice(&recent[*j].2);
+                    bnds.push(stream.len());
+                }
+                let cuts: Vec<usize> = (0..stream.len()).collect();
+                let typed: Vec<Entry> = models.iter().map(|m| typed_entry(m)).collect();
+                let disp: Vec<Entry> = models.iter().map(|_| Entry::Dispatch).collect();
+                let script = random_script(&mut rng_io);
+                for chunking in [Chunking::AllAtOnce, Chunking::ByteWise, script] {
+                    if chunking == Chunking::ByteWise && stream.len() > 200 {
+                        continue;
+                    }
+                    truncations(ctx, &mut mon, &models, &libs, &stream, &bnds, &typed, &chunking, &cuts);
+                    truncations(ctx, &mut mon, &models, &libs, &stream, &bnds, &disp, &chunking, &cuts);
+                    if models.iter().all(|m| is_payload_seq_member(m)) {
+                        let pr: Vec<Entry> = models.iter().map(|_| Entry::PayloadRead).collect();
+                        truncations(ctx, &mut mon, &models, &libs, &stream, &bnds, &pr, &chunking, &cuts);
+                    }
+                }
+                seqs_done += 1;
+                ctx.obs(&format!("sequences_of_{}_pdus", n), 1);
+            }
+        }
+        // announced lengths up to 2^32-1: native only, one shard, a handful of reads
+        if ctx.stage == Stage::Native && ctx.shard == 0 {
+            huge_lengths(ctx, &mut mon);
+        }
+    }
+
+    ctx.evals(mon.evals);
+    ctx.obs("reads_ok", mon.ok_reads);
+    ctx.obs("wellformed_after_header_change_accepted", mon.wf_accepted);
+    ctx.obs("wellformed_after_header_change_but_refused", mon.wf_refused);
+    ctx.obs("eod_version_gt2_accepted", mon.eod_gt2_accepted);
+    ctx.obs("eod_version_gt2_refused", mon.eod_gt2_refused);
+    ctx.obs("reads_err", mon.err_reads);
+    ctx.obs("reader_polls", mon.polls);
+    ctx.obs("reader_pending_returned", mon.pendings);
+    ctx.obs_max("reads_after_eof_in_one_stream", mon.eof_reads_max as u64);
+    if mon.err_reads == 0 {
+        ctx.notes.push("C07: no damaged stream was refused in this shard (nothing observed on the fault side)".into());
+    }
+}
+
+/// Headers announcing 2^31 .. 2^32-1 octets on a short stream. The library
+/// allocates the announced length for router keys and ASPA, so this runs
+/// once per check in the native stage only.
+fn huge_lengths(ctx: &mut Ctx, mon: &mut Mon) {
+    let mut r = Rng::derive(ctx.seed, &["C07", "huge"], &[]);
+    let chunk = Chunking::AllAtOnce;
+    for which in [0u64, 2, 4, 5, 7, 9, 10, 11] {
+        let m = gen_pdu(&mut r, which, Size::Tiny);
+        let w = m.encode();
+        for l in [0x7FFF_FFFFu32, 0x8000_0000, 0xFFFF_FFFC, 0xFFFF_FFFF] {
+            ctx.breadcrumb(&format!("huge length {} on {}", l, m.name()));
+            let entries: Vec<Entry> = entries_for(&m).into_iter().filter(|e| !matches!(e, Entry::Try(_))).collect();
+            corrupt_one(ctx, mon, &m, &w, 4, &l.to_be_bytes(), Damage::Length { announced: l, truth: w.len() as u32 }, &entries, &chunk, &[]);
+        }
+    }
+    ctx.obs("huge_length_headers", 32);
 }
